@@ -82,7 +82,7 @@ def renderCli (o : Cli.CliOpts) : String :=
 def renderOutcome : Cli.Outcome → String
   | .ok o => "ok " ++ renderCli o ++
       "|export=" ++ (match Pipes.exportCmd {} o with | some a => encList a | none => "err") ++
-      "|import=" ++ encList (Pipes.importCmd {} o)
+      "|import=" ++ encList (Pipes.importCmd {} o) ++ "|valid=" ++ encBool (Pipes.validCli o)
   | .exit c => "exit" ++ toString c
   | .err => "err"
 
